@@ -179,7 +179,7 @@ def main():
         }],
         "checks": checks,
         "not_applicable": na,
-        "notes": "All checks are static (ast / re._parser); /repo is never imported or executed by a check. Exit 0 = all "
+        "notes": "All checks are static (ast / re._parser); /repo is never imported or executed by a check; where a rule evaluates a function or a table of concrete texts, the analyser's own interpreter (bibcheck/absint.py) interprets the source. Exit 0 = all "
                  "obligations discharged, exit 1 + VIOLATION line = a construct breaks a rule, exit 2 + ANALYSIS-ERROR = an "
                  "anchor vanished or the analyser could not follow the code. Genuine defects found while building the checks "
                  "were repaired in /repo as 'fix:' commits and are listed in KNOWN_FINDINGS.txt.",
